@@ -181,6 +181,49 @@ def refactor_runs(pid: str, repo: str):
         return list(ex.map(one, names))
 
 
+def hidden_runs(pid: str, repo: str):
+    """/verif/hidden/<H>/: a behaviour-preserving clean-up (clean.diff) and the same clean-up with a small slip hidden in
+    it (patch.diff), written independently. The clean-up alone must not be reported (exit 1 = false alarm); the slip must
+    be refuted by the check of its property unless its meta.json says the check cannot decide that shape (exit 2)."""
+    import json
+    root = os.path.join(VERIF, "hidden")
+    out = []
+    if not os.path.isdir(root):
+        return out
+    for name in sorted(os.listdir(root)):
+        mp = os.path.join(root, name, "meta.json")
+        if not os.path.exists(mp):
+            continue
+        meta = json.load(open(mp))
+        if meta.get("property") != pid:
+            continue
+        for which in ("clean", "patch"):
+            pp = os.path.join(root, name, which + ".diff")
+            d = tempfile.mkdtemp(prefix="psthid.")
+            try:
+                shutil.copytree(os.path.join(repo, "persim"), os.path.join(d, "persim"), ignore=shutil.ignore_patterns("__pycache__"))
+                pr = subprocess.run(["patch", "-p1", "-s", "-d", d, "-i", pp], capture_output=True, text=True)
+                if pr.returncode != 0:
+                    out.append(dict(hidden=name, which=which, got="patch-does-not-apply", ok=True))
+                    continue
+                r = subprocess.run([sys.executable, "-m", "pst.check", pid, "--repo", d, "--dry"], cwd=VERIF, capture_output=True,
+                                   text=True, timeout=300)
+                rule = None
+                for ln in r.stdout.splitlines():
+                    if " rule=" in ln:
+                        rule = ln.split(" rule=")[1].split(":")[0]
+                        break
+                got = {0: "silent", 1: "refute", 2: "unmodelled"}.get(r.returncode, "error")
+                if which == "clean":
+                    ok = got != "refute"
+                else:
+                    ok = got == "refute" or (meta.get("expect_patch", "").startswith("undecided") and got == "unmodelled")
+                out.append(dict(hidden=name, which=which, got=got, rule=rule, ok=ok))
+            finally:
+                shutil.rmtree(d, ignore_errors=True)
+    return out
+
+
 if __name__ == "__main__":
     # python -m pst.selftest.run C09 [repo]  — run all self-tests of one check without writing evidence
     import json
@@ -199,6 +242,9 @@ if __name__ == "__main__":
         ok = r_["got"] in ("silent", "unmodelled", "patch-does-not-apply")
         bad += not ok
         print("refactor", "ok " if r_["got"] == "silent" else ("~~ " if ok else "BAD"), r_)
+    for r_ in hidden_runs(pid_, repo_):
+        bad += not r_["ok"]
+        print("hidden  ", "ok " if r_["ok"] else "BAD", r_)
     res_ = sensitivity(pid_, repo_)
     miss = [r_ for r_ in res_ if r_["got"] != r_["expect"]]
     bad += len([m for m in miss if m["got"] != "anchor-missing"])
